@@ -1,3 +1,4 @@
+mod c_conc;
 mod c_dc;
 mod c_eeprom;
 mod c_init;
@@ -39,6 +40,7 @@ fn lookup(property: &str, check: &str) -> Option<Box<CaseFn>> {
         ("C08", "pd-mapping") => Some(Box::new(c_pd::c08_case)),
         ("C17", "dc-topology") => Some(Box::new(c_dc::c17_case)),
         ("C18", "dc-sync") => Some(Box::new(c_dc::c18_case)),
+        ("C20", "concurrent-tasks") => Some(Box::new(c_conc::c20_case)),
         ("C15", "sdo-transfers") => Some(Box::new(c_sdo::c15_case)),
         ("C16", "hostile-mailbox") => Some(Box::new(c_sdo::c16_case)),
         ("C11", "wkc-group-transitions") => Some(Box::new(c_wkc::c11_group_case)),
@@ -75,6 +77,7 @@ fn main() {
         id @ ("C12" | "C13" | "C14") => c_eeprom::run(id, args.get(2).map(|s| s.as_str()).unwrap_or("quick"), seed, workers),
         id @ ("C07" | "C08") => c_pd::run(id, args.get(2).map(|s| s.as_str()).unwrap_or("quick"), seed, workers),
         id @ ("C15" | "C16") => c_sdo::run(id, args.get(2).map(|s| s.as_str()).unwrap_or("quick"), seed, workers),
+        "C20" => c_conc::run_c20(args.get(2).map(|s| s.as_str()).unwrap_or("quick"), seed, workers),
         id @ ("C17" | "C18") => c_dc::run(id, args.get(2).map(|s| s.as_str()).unwrap_or("quick"), seed, workers),
         "C11" => c_wkc::run_c11(args.get(2).map(|s| s.as_str()).unwrap_or("quick"), seed, workers),
         "C10" => c_state::run_c10(args.get(2).map(|s| s.as_str()).unwrap_or("quick"), seed, workers),
